@@ -308,7 +308,10 @@ def gen_factory(rng):
     for i, d in enumerate(nodes):
         if d["kind"] == "source" and sum(1 for l in links if l[1] == i) >= 2 and "late" not in d and rng.random() < 0.5:
             d["late"] = "default"
-    cfg = dict(edges=edges, nodes=nodes, links=links, horizon=rng.choice([20, 40, 60]), shape=shape,
+    # now and then the run is finalised very early: inside the set-up period of a machine, before a source's first item is due (the
+    # statistics are read at T whatever T is)
+    hz = rng.choice([1, 2, 3]) if rng.random() < 0.08 else rng.choice([20, 40, 60])
+    cfg = dict(edges=edges, nodes=nodes, links=links, horizon=hz, shape=shape,
                rseed=rng.randrange(10 ** 6))
     if shape in ("pack", "unpack") and invalid: cfg["invalid"] = invalid   # outside the documented domain: the error named is the rejection
     return cfg
